@@ -311,6 +311,57 @@ func runC18(c *Ctx) {
 	}
 
 	// ------------------------------------------------------------------ (4)
+	// the hand-over reaches the follower, and a follower that left is forgotten
+	{
+		rF := c.Rule("observer-plumbing", "every implementation of LogObserver.SetLines in pclog and api uses the lines it is given (passes them on or iterates them); the function behind IProject.UnSubscribeLogger deletes the observer from the buffer's observer map on every path on which the buffer exists")
+		setLines := p.IfaceMethod("pclog", "LogObserver", "SetLines")
+		nS := 0
+		for _, impl := range p.implementationsOf(setLines) {
+			pk := pkgOfFunc(impl)
+			if pk == nil || (pk.Name() != "pclog" && pk.Name() != "api") {
+				continue
+			}
+			nS++
+			c.Touch(impl)
+			used := false
+			if len(impl.Params) >= 2 {
+				for _, ref := range *impl.Params[1].Referrers() {
+					switch r := ref.(type) {
+					case *ssa.Call:
+						used = true
+					case *ssa.Range:
+						used = true
+					case *ssa.Store, *ssa.MakeInterface, *ssa.Slice:
+						_ = r
+						used = true
+					case *ssa.Phi, *ssa.Index, *ssa.IndexAddr:
+						used = true
+					}
+				}
+			}
+			c.Check(used, rF, "set-lines:"+p.FuncKey(impl), FirstPos(p, impl), "the snapshot is consumed", "SetLines drops the snapshot it is given: a follower that subscribes with a tail receives only the lines written afterwards")
+		}
+		c.Check(nS >= 1, rF, "floor:set-lines", "", "SetLines implementations found", "no LogObserver.SetLines implementation in pclog/api")
+		if unsub := p.TryMethod("app", "ProjectRunner", "UnSubscribeLogger"); unsub != nil {
+			del := p.Deep(MapDeleteOn("delete observers", fObs))
+			var calls []ssa.Instruction
+			AllInstrs(unsub, func(in ssa.Instruction) {
+				if call, ok := in.(*ssa.Call); ok {
+					if sc := call.Call.StaticCallee(); sc != nil && recvIs(sc, lbT) {
+						calls = append(calls, in)
+					}
+				}
+			})
+			okU := len(calls) > 0
+			for _, cl := range calls {
+				if !del.Always(CallCommonOf(cl).StaticCallee()) {
+					okU = false
+				}
+			}
+			c.Touch(unsub)
+			c.Check(okU, rF, "unsubscribe-deletes", FirstPos(p, unsub), "the observer is removed from the buffer", "unsubscribing does not remove the observer from the buffer's observer map: the writer keeps delivering every line to a follower that has gone (its channel is no longer drained, or is closed)")
+		}
+	}
 	s.checkBlockingUnderLocksFiltered(c, ls, "observers-nonblocking", map[*types.Var]bool{fMx: true})
 	s.checkConsumerBeforeProducer(c, "consumer-before-subscription")
 
